@@ -439,6 +439,9 @@ pub enum IOp {
     Drain(u8),
     /// drain(), take n items from the front, mem::forget the iterator
     DrainForget(u8),
+    /// every other &self accessor: len, is_empty, capacity, current_size, max_size, hasher,
+    /// iter / keys / values in both directions, clone (the clone is dropped)
+    ReadAll,
     /// consume the cache through into_iter (0) / into_keys (1) / into_values (2)
     /// under pattern 0: front only, 1: back only, 2: alternating from the back,
     /// stopping after len/2 + 1 items; two calls past exhaustion when everything
@@ -476,16 +479,74 @@ fn alphabet<T: Inst>() -> Vec<IOp> {
     for i in 0..4 {
         a.push(IOp::CloneFrom(i));
     }
-    a.push(IOp::Drain(0));
-    a.push(IOp::Drain(1));
+    for pat in 0..NPATS {
+        a.push(IOp::Drain(pat));
+    }
     a.push(IOp::DrainForget(0));
     a.push(IOp::DrainForget(1));
+    a.push(IOp::ReadAll);
     for kind in 0..3 {
-        for pat in 0..3 {
+        for pat in 0..NPATS {
             a.push(IOp::Owning(kind, pat));
         }
     }
     a
+}
+
+// ---------------------------------------------------------------------------
+// iterator driving patterns (the same function drives the real iterator and a
+// VecDeque of the expected items, whose std iterator is the reference)
+// ---------------------------------------------------------------------------
+
+const NONE: (u32, u32) = (u32::MAX, u32::MAX);
+const COUNT: u32 = u32::MAX - 1;
+pub const NPATS: u8 = 10;
+
+/// The iterator is taken by value so that the provided methods a type may
+/// override (last, count, nth, rev) are really the type's own.
+/// 0: front only (two calls past the end); 1: back only (ditto); 2: alternating
+/// from the back, stopping after n/2 + 1 items (the rest is dropped with the
+/// iterator); 3: next, last; 4: exhausted from the front, then last; 5: driven
+/// from both ends until they meet, then last; 6: next_back, count; 7: nth(1),
+/// next_back, nth(0), count; 8: next, rev; 9: exhausted from the back, then last.
+fn drive<X, I: DoubleEndedIterator<Item = X>>(mut it: I, pat: u8, n: usize, f: impl Fn(X) -> (u32, u32)) -> Vec<(u32, u32)> {
+    let g = |x: Option<X>| x.map(&f).unwrap_or(NONE);
+    match pat {
+        0 => (0..n + 2).map(|_| g(it.next())).collect(),
+        1 => (0..n + 2).map(|_| g(it.next_back())).collect(),
+        2 => (0..n / 2 + 1).map(|i| if i % 2 == 1 { g(it.next()) } else { g(it.next_back()) }).collect(),
+        3 => vec![g(it.next()), g(it.last())],
+        4 => {
+            let mut v: Vec<(u32, u32)> = (0..n + 1).map(|_| g(it.next())).collect();
+            v.push(g(it.last()));
+            v
+        }
+        5 => {
+            let mut v = vec![];
+            for i in 0..n + 1 {
+                let x = if i % 2 == 0 { it.next() } else { it.next_back() };
+                let done = x.is_none();
+                v.push(g(x));
+                if done {
+                    break;
+                }
+            }
+            v.push(g(it.last()));
+            v
+        }
+        6 => vec![g(it.next_back()), (COUNT, it.count() as u32)],
+        7 => vec![g(it.nth(1)), g(it.next_back()), g(it.nth(0)), (COUNT, it.count() as u32)],
+        8 => {
+            let mut v = vec![g(it.next())];
+            v.extend(it.rev().map(&f));
+            v
+        }
+        _ => {
+            let mut v: Vec<(u32, u32)> = (0..n + 1).map(|_| g(it.next_back())).collect();
+            v.push(g(it.last()));
+            v
+        }
+    }
 }
 
 // ---------------------------------------------------------------------------
@@ -914,81 +975,45 @@ impl<T: Inst> Run<T> {
             }
             IOp::Drain(pat) => {
                 self.zero_hash_op = true;
-                let mut rest: std::collections::VecDeque<RE> = self.m.l.drain(..).collect();
+                let rest: std::collections::VecDeque<(u32, u32)> = self.m.l.drain(..).map(|x| (x.id, x.tag)).collect();
                 let n = rest.len();
-                let mut exp = vec![];
-                let mut act = vec![];
-                {
-                    let mut d = self.c.drain();
-                    for i in 0..n {
-                        let front = if pat == 0 { true } else { i % 2 == 1 };
-                        if let Some(x) = if front { rest.pop_front() } else { rest.pop_back() } {
-                            exp.push((x.id, x.tag));
-                        }
-                        if let Some((k, v)) = if front { d.next() } else { d.next_back() } {
-                            act.push((T::kid(&k), T::vtag(&v)));
-                        }
-                        // stop half way for pattern 1: the rest is dropped by the iterator
-                        if pat == 1 && i + 1 >= (n + 1) / 2 {
-                            break;
-                        }
-                    }
-                }
+                let exp = drive(rest.into_iter(), pat, n, |x| x);
+                let act = {
+                    let d = self.c.drain();
+                    drive(d, pat, n, |(k, v)| (T::kid(&k), T::vtag(&v)))
+                };
                 (R::Drained(act), R::Drained(exp))
+            }
+            IOp::ReadAll => {
+                self.read_only = true;
+                self.is_rebuild_op = true; // clone() hashes every entry once
+                let c = &self.c;
+                let n = c.len();
+                let mut seen = (c.is_empty() as usize) + c.capacity().min(1) + c.current_size().min(1) + c.max_size().min(1);
+                let _ = c.hasher();
+                seen += c.iter().count() + c.iter().rev().count() + c.keys().count() + c.values().rev().count();
+                let d = c.clone();
+                seen += d.len();
+                drop(d);
+                let _ = seen;
+                (R::V(Some(n as u32)), R::V(Some(self.m.l.len() as u32)))
             }
             IOp::Owning(kind, pat) => {
                 self.zero_hash_op = true;
                 let fresh = T::mk(limit, None, self.hk);
                 let old = std::mem::replace(&mut self.c, fresh);
-                let mut rest: std::collections::VecDeque<RE> = self.m.l.drain(..).collect();
+                let rest: std::collections::VecDeque<(u32, u32)> = self.m.l.drain(..).map(|x| (x.id, x.tag)).collect();
                 let n = rest.len();
-                let take = if pat == 2 { n / 2 + 1 } else { n + 2 };
-                let mut exp: Vec<(u32, u32)> = vec![];
-                let mut act: Vec<(u32, u32)> = vec![];
-                const NONE: (u32, u32) = (u32::MAX, u32::MAX);
-                let front = |i: usize| match pat {
-                    0 => true,
-                    1 => false,
-                    _ => i % 2 == 1,
+                let exp = match kind {
+                    0 => drive(rest.into_iter(), pat, n, |x| x),
+                    1 => drive(rest.into_iter(), pat, n, |x| (x.0, 0)),
+                    _ => drive(rest.into_iter(), pat, n, |x| (0, x.1)),
                 };
-                for i in 0..take {
-                    let x = if front(i) { rest.pop_front() } else { rest.pop_back() };
-                    exp.push(match (kind, x) {
-                        (_, None) => NONE,
-                        (0, Some(x)) => (x.id, x.tag),
-                        (1, Some(x)) => (x.id, 0),
-                        (_, Some(x)) => (0, x.tag),
-                    });
-                }
-                match kind {
-                    0 => {
-                        let mut it = old.into_iter();
-                        for i in 0..take {
-                            act.push(match if front(i) { it.next() } else { it.next_back() } {
-                                None => NONE,
-                                Some((k, v)) => (T::kid(&k), T::vtag(&v)),
-                            });
-                        }
-                    }
-                    1 => {
-                        let mut it = old.into_keys();
-                        for i in 0..take {
-                            act.push(match if front(i) { it.next() } else { it.next_back() } {
-                                None => NONE,
-                                Some(k) => (T::kid(&k), 0),
-                            });
-                        }
-                    }
-                    _ => {
-                        let mut it = old.into_values();
-                        for i in 0..take {
-                            act.push(match if front(i) { it.next() } else { it.next_back() } {
-                                None => NONE,
-                                Some(v) => (0, T::vtag(&v)),
-                            });
-                        }
-                    }
-                }
+                let act = match kind {
+                    0 => drive(old.into_iter(), pat, n, |(k, v)| (T::kid(&k), T::vtag(&v))),
+                    1 => drive(old.into_keys(), pat, n, |k| (T::kid(&k), 0)),
+                    _ => drive(old.into_values(), pat, n, |v| (0, T::vtag(&v))),
+                };
                 (R::Drained(act), R::Drained(exp))
             }
             IOp::DrainForget(n) => {
@@ -1034,6 +1059,7 @@ fn owner(op: IOp) -> Props {
         IOp::Drain(_) => p(12),
         IOp::DrainForget(_) => p(17),
         IOp::Owning(..) => p(12) | p(6),
+        IOp::ReadAll => p(19),
     }
 }
 
@@ -1119,6 +1145,7 @@ fn code(op: IOp) -> [u8; 3] {
         IOp::Drain(x) => [25, x, 0],
         IOp::DrainForget(n) => [26, n, 0],
         IOp::Owning(a, b) => [27, a, b],
+        IOp::ReadAll => [28, 0, 0],
     }
 }
 
@@ -1153,6 +1180,7 @@ fn uncode(c: &[u8]) -> Option<IOp> {
         25 => IOp::Drain(c[1]),
         26 => IOp::DrainForget(c[1]),
         27 => IOp::Owning(c[1], c[2]),
+        28 => IOp::ReadAll,
         _ => return None,
     })
 }
@@ -1267,6 +1295,23 @@ fn announce(job: &Job, name: &str, seq: &[IOp], fault: Option<(Cb, u32)>) -> Opt
     None
 }
 
+/// The bytes of the cache object itself (not of what it points to).
+fn object_bytes<T: Inst>(c: &LruCache<T::K, T::V, T::S>) -> Vec<u8> {
+    let n = std::mem::size_of_val(c);
+    let p = c as *const LruCache<T::K, T::V, T::S> as *const u8;
+    (0..n).map(|i| unsafe { std::ptr::read_volatile(p.add(i)) }).collect()
+}
+
+/// Explored only as the last operation of a sequence: what follows them starts
+/// from a fresh cache (owning iterators) or from the same emptied cache as after Drain(0).
+fn terminal_only(op: IOp) -> bool {
+    matches!(op, IOp::Owning(..)) || matches!(op, IOp::Drain(p) if p != 0)
+}
+
+fn is_shared_ref_op(op: IOp) -> bool {
+    matches!(op, IOp::Peek(_) | IOp::PeekEntry(_) | IOp::Contains(_) | IOp::PeekLru | IOp::PeekMru | IOp::ReadAll | IOp::CloneSwap)
+}
+
 fn run_seq<T: Inst>(job: &Job, sm: [usize; 5], seq: &[IOp], out: &mut InstResult) {
     reg_reset();
     let last = *seq.last().unwrap();
@@ -1278,8 +1323,50 @@ fn run_seq<T: Inst>(job: &Job, sm: [usize; 5], seq: &[IOp], out: &mut InstResult
         });
         return;
     }
+    // &self operations, first pass: without asking the hook for a dump beforehand (the
+    // hook is itself a &self reader and could mask lazily initialised state), the
+    // cache object's own bytes must be the same before and after
+    let mut object_changed = false;
+    if is_shared_ref_op(last) {
+        let r = std::panic::catch_unwind(std::panic::AssertUnwindSafe(|| {
+            let run = build_run::<T>(job, sm, &seq[..seq.len() - 1]);
+            let before = object_bytes::<T>(&run.c);
+            let c = &run.c;
+            match last {
+                IOp::Peek(k) => {
+                    T::with_q(k, |q| c.peek(q).is_some());
+                }
+                IOp::PeekEntry(k) => {
+                    T::with_q(k, |q| c.peek_entry(q).is_some());
+                }
+                IOp::Contains(k) => {
+                    T::with_q(k, |q| c.contains(q));
+                }
+                IOp::PeekLru => {
+                    let _ = c.peek_lru();
+                }
+                IOp::PeekMru => {
+                    let _ = c.peek_mru();
+                }
+                IOp::CloneSwap => drop(c.clone()),
+                _ => {
+                    let _ = (c.len(), c.is_empty(), c.capacity(), c.current_size(), c.max_size());
+                    let _ = c.hasher();
+                    let _ = c.iter().count() + c.iter().rev().count() + c.keys().count() + c.values().count();
+                }
+            }
+            let after = object_bytes::<T>(&run.c);
+            before != after
+        }));
+        object_changed = r.unwrap_or(false);
+        let _ = take_reg_violations();
+        reg_reset();
+    }
     let res = std::panic::catch_unwind(std::panic::AssertUnwindSafe(|| {
         let mut problems: Vec<(Props, &'static str, String)> = vec![];
+        if object_changed {
+            problems.push((p(19), "C19.object-bytes", "an operation on a shared reference changed the bytes of the cache object itself".to_string()));
+        }
         let mut run: Run<T> = Run::new(if job.limit == 0 { usize::MAX } else { job.limit }, job.cap, job.hk, sm);
         for op in &job.prefix {
             let _ = run.step(*op);
@@ -1379,20 +1466,22 @@ fn run_seq<T: Inst>(job: &Job, sm: [usize; 5], seq: &[IOp], out: &mut InstResult
         if (ks != want_k || vs != want_v) && got_it == want {
             problems.push((p(12), "C12.sequence", format!("keys() yields {ks:?} (expected {want_k:?}), values().rev() yields {vs:?} (expected {want_v:?})")));
         }
-        if got_it == want {
-            let mut it = c.iter();
-            let mut rest: std::collections::VecDeque<(u32, u32)> = want.iter().copied().collect();
-            let mut bad = None;
-            for i in 0..want.len() + 2 {
-                let (a, e) = if i % 2 == 0 { (it.next_back(), rest.pop_back()) } else { (it.next(), rest.pop_front()) };
-                let a = a.map(|(k, v)| (T::kid(k), T::vtag(v)));
-                if a != e {
-                    bad = Some((i, a, e));
-                    break;
+        if got_it == want && seq.len() <= 2 {
+            let n = want.len();
+            for pat in 0..NPATS {
+                let model: std::collections::VecDeque<(u32, u32)> = want.iter().copied().collect();
+                let e = drive(model.clone().into_iter(), pat, n, |x| x);
+                let a = drive(c.iter(), pat, n, |(k, v)| (T::kid(k), T::vtag(v)));
+                let ek = drive(model.clone().into_iter(), pat, n, |x| (x.0, 0));
+                let ak = drive(c.keys(), pat, n, |k| (T::kid(k), 0));
+                let ev = drive(model.into_iter(), pat, n, |x| (0, x.1));
+                let av = drive(c.values(), pat, n, |v| (0, T::vtag(v)));
+                for (what, a, e) in [("iter()", a, e), ("keys()", ak, ek), ("values()", av, ev)] {
+                    if a != e {
+                        problems.push((p(12) | p(5), "C12.sequence", format!("{what} driven by pattern {pat} (0 front, 1 back, 2 alternating, 3 next+last, 4 exhausted+last, 5 met in the middle+last, 6 next_back+count, 7 nth+count, 8 next+rev, 9 exhausted from the back+last) yields {a:?}, expected {e:?} ((u32::MAX, u32::MAX) = None)")));
+                        break;
+                    }
                 }
-            }
-            if let Some((i, a, e)) = bad {
-                problems.push((p(12), "C12.sequence", format!("iter() driven alternately from the back and the front: call #{i} yields {a:?}, expected {e:?}")));
             }
         }
         let cls = if run.leaky { "inst:leaky" } else { outcome_class(&act) };
@@ -1484,7 +1573,7 @@ fn run_job<T: Inst>(job: Job) -> InstResult {
                 Some(firsts) if seq.len() == 1 => firsts.contains(op),
                 _ => true,
             };
-            if out.violations.len() < 64 && descend {
+            if out.violations.len() < 64 && descend && !terminal_only(*op) {
                 rec::<T>(job, sm, alpha, seq, out);
             }
             seq.pop();
@@ -1638,18 +1727,24 @@ fn post_fault<T: Inst>(c: &LruCache<T::K, T::V, T::S>, problems: &mut Vec<(&'sta
     Some(fwd)
 }
 
-const BATTERY: [IOp; 12] = [
+/// Further use after a fault: the table is rebuilt first (a fault may leave
+/// scratch state behind that only the next rebuild consumes), and the whole
+/// post-fault oracle - including lookups against the traversal - is repeated
+/// after every step.
+const BATTERY: [IOp; 14] = [
+    IOp::Reserve,
     IOp::Get(0),
+    IOp::ShrinkToFit,
     IOp::Insert(1, 0),
     IOp::Touch(2),
     IOp::Mutate(0, 1),
     IOp::Retain(1),
     IOp::Insert(0, 1),
     IOp::RemoveLru,
-    IOp::CloneSwap,
     IOp::Insert(2, 0),
     IOp::SetMax(1),
-    IOp::ShrinkToFit,
+    IOp::CloneSwap,
+    IOp::Get(0),
     IOp::Clear,
 ];
 
@@ -1758,19 +1853,13 @@ fn fault_seq<T: Inst>(job: &Job, sm: [usize; 5], seq: &[IOp], out: &mut InstResu
                         if r.is_err() {
                             problems.push(("postfault.use", format!("{op:?} panicked on the cache that survived the fault")));
                         }
-                        let d = run.c.verif_dump();
-                        match walk(&d) {
-                            Err(why) => {
-                                problems.push(("postfault.use", format!("after {op:?} on the cache that survived the fault: {why}")));
-                                alive = false;
-                                break;
-                            }
-                            Ok(w) => {
-                                if w.recorded_sum != d.current_size {
-                                    problems.push(("postfault.use", format!("after {op:?} on the cache that survived the fault: current_size() = {} but recorded sizes sum to {}", d.current_size, w.recorded_sum)));
-                                    break;
-                                }
-                            }
+                        let mut after_use: Vec<(&'static str, String)> = vec![];
+                        if post_fault::<T>(&run.c, &mut after_use).is_none() {
+                            alive = false;
+                        }
+                        if let Some((rule, why)) = after_use.into_iter().next() {
+                            problems.push(("postfault.use", format!("after {op:?} on the cache that survived the fault: {rule}: {why}")));
+                            break;
                         }
                         if r.is_err() {
                             break;
@@ -1843,7 +1932,7 @@ fn fault_job<T: Inst>(job: Job) -> InstResult {
             seq.push(*op);
             out.sequences += 1;
             fault_seq::<T>(job, sm, seq, out);
-            if out.violations.len() < 64 {
+            if out.violations.len() < 64 && !terminal_only(*op) {
                 rec::<T>(job, sm, alpha, seq, out);
             }
             seq.pop();
